@@ -61,6 +61,10 @@ type c20Cfg struct {
 	BufCap int    `json:"buf_cap,omitempty"`
 	BufMax int    `json:"buf_max,omitempty"`
 	NilBuf bool   `json:"nil_buf,omitempty"`
+	// PreBuf: Connection.Buffer was called before with a buffer of this capacity; Warmup: an earlier Connect ran
+	// with Buffer(nil, Warmup). In both cases the configuration under test is the one set last.
+	PreBuf int `json:"buffer_called_before_with_cap,omitempty"`
+	Warmup int `json:"earlier_connect_with_max,omitempty"`
 	// ZeroCfg: a ReadConfig is passed whose MaxEventSize is 0 (the default)
 	ZeroCfg bool `json:"zero_config,omitempty"`
 }
@@ -79,6 +83,7 @@ func (c c20Cfg) limit() int {
 }
 
 var c20Cfgs = []c20Cfg{
+	{Entry: "conn", NilBuf: true, BufMax: 100, PreBuf: 8192}, {Entry: "conn", NilBuf: true, BufMax: 4096, PreBuf: 70000}, {Entry: "conn", NilBuf: true, BufMax: 100, Warmup: 8192}, {Entry: "conn", NilBuf: true, BufMax: 5000, Warmup: 1 << 20},
 	{Entry: "read"}, {Entry: "read", ZeroCfg: true}, {Entry: "conn", NilBuf: true, BufMax: 1}, {Entry: "read", MaxEv: -1}, {Entry: "read", MaxEv: -70000}, {Entry: "read", MaxEv: 1}, {Entry: "read", MaxEv: 3}, {Entry: "read", MaxEv: 16}, {Entry: "read", MaxEv: 100},
 	{Entry: "read", MaxEv: 4096}, {Entry: "read", MaxEv: 65536}, {Entry: "read", MaxEv: 1 << 20}, {Entry: "read", MaxEv: 5000},
 	{Entry: "conn"}, {Entry: "conn", NilBuf: true, BufMax: 16}, {Entry: "conn", BufCap: 8, BufMax: 16}, {Entry: "conn", BufCap: 64, BufMax: 16},
@@ -97,6 +102,8 @@ func c20Run(cfg c20Cfg, rd *mon.ChunkReader) readObs {
 	if !cfg.NilBuf && cfg.BufCap > 0 {
 		buf = make([]byte, 0, cfg.BufCap)
 	}
+	runConnPreBuf, runConnWarmupMax = cfg.PreBuf, cfg.Warmup
+	defer func() { runConnPreBuf, runConnWarmupMax = 0, 0 }()
 	return runConn(rd, buf, cfg.BufMax)
 }
 
@@ -268,7 +275,9 @@ func c20Endless(r *fw.Run, key string, cfg c20Cfg, prefix string, unit string, c
 		if !cfg.NilBuf && cfg.BufCap > 0 {
 			buf = make([]byte, 0, cfg.BufCap)
 		}
+		runConnPreBuf, runConnWarmupMax = cfg.PreBuf, cfg.Warmup
 		obs = runConn(full, buf, cfg.BufMax)
+		runConnPreBuf, runConnWarmupMax = 0, 0
 	}
 	r.Count("executions", 1)
 	r.Count("endless_executions", 1)
